@@ -90,6 +90,31 @@ def run(ctx):
                f'the parent test', why is None, why or '')
     ctx.floor('C02.R5', sum(n for n, _ in g5.values()), 50, 'shapes with an ignorable child')
 
+    # ---- R6 ----------------------------------------------------------------------
+    ctx.rule('C02.R6', 'exhaustive over the hint-sign universe: every sign whose family in the specification table is a '
+             'container receives, when subscripted by a class, exactly the item strategy of that family (sequence: the '
+             'index drawn modulo the length / index 0; re-iterable: the first item; mapping: first key and its value; '
+             'quasi-iterable: as a sequence when it is one) — a sign filed under a weaker family would leave items '
+             'the strategy must see unreachable for every draw')
+    rows = _gen.dispatch(ctx)
+    n = 0
+    for r in rows:
+        fam = FAMILY.get(r['sign']) if r['sign'] else None
+        if fam is None or not r['subscripted'] or r.get('code') in ('raise', 'none'):
+            continue
+        n += 1
+        ctx.ob('C02.R6', f'strategy:{r["sign"]}', 'beartype/_data/hint/sign/datahintsignset.py:0',
+               f'{r["sign"]}[T] is checked with the item strategy of the {fam} family', r.get('matches_reference') is True,
+               f'generated: {r.get("term", "")[:200]}')
+    ctx.floor('C02.R6', n, 20, 'container signs')
+
+    # ---- R7 ----------------------------------------------------------------------
+    # the generated expression depends on conf.is_random (R1): a memo key of make_check_expr that does not
+    # contain the configuration hands a non-random caller the random expression (and vice versa) after some
+    # histories — the key-completeness rule shared with C14.R1
+    from .c14 import _key_completeness
+    _key_completeness(ctx, 'C02.R7', only_check_expr=True)
+
     # ---- R4 ----------------------------------------------------------------------
     _producers(ctx)
 
